@@ -30,6 +30,8 @@
 (* the replay reports one dynamic property off by d units (kind "scalar": d =      *)
 (* <<n, u, 0>> = n units + u ulps, "vector": d = the difference vector, "none"),   *)
 (* base = the recorded value of that property (whole real units; opaque here),    *)
+(* sub = <<f, v>>: recorded field f (a draw) is replaced by the value v of its     *)
+(* domain before the replay (f = 0: not),                                         *)
 (* rec = recorded draws fixed by the case (<<>>: every sequence), cut = number of  *)
 (* recorded fields handed to the replay (-1: all; only without divergence data).  *)
 (* Draws are indices 0..D-1; all run-time randomness is nondeterminism here.      *)
@@ -143,7 +145,10 @@ DrawFresh ==        \* replay exhausted (or abandoned after a divergence): the u
 StartReplay ==
   /\ pc = "done" /\ run = "rec"
   /\ run' = "rep" /\ pc' = "update" /\ t' = 0
-  /\ stream' = IF C.cut >= 0 /\ C.cut < Len(stream) THEN SubSeq(stream, 1, C.cut) ELSE stream
+  /\ stream' = LET c == IF C.cut >= 0 /\ C.cut < Len(stream) THEN SubSeq(stream, 1, C.cut) ELSE stream
+                     f == C.sub[1]
+                 IN \* a corrupted recording: recorded draw f replaced by another value of its domain
+                    IF f >= 1 /\ f <= Len(c) /\ c[f][1] = "draw" THEN [c EXCEPT ![f] = <<"draw", C.sub[2]>>] ELSE c
   /\ rp' = 1 /\ replaying' = TRUE
   /\ recActs' = acts /\ recTerm' = term /\ acts' = <<>> /\ term' = ""
   /\ UNCHANGED <<cid, sem, fresh, diverged, checks>>
@@ -155,7 +160,7 @@ Spec == Init /\ [][Next]_vars
 Finished == run = "rep" /\ pc = "done"
 IsPrefix(a, b) == Len(a) <= Len(b) /\ \A i \in 1..Len(a) : a[i] = b[i]
 NDraws(s) == Cardinality({i \in 1..Len(s) : s[i][1] = "draw"})
-Uncut == C.cut < 0
+Uncut == C.cut < 0 /\ C.sub[1] = 0
 Perturbed == C.pert[2] # "none" /\ C.chk = 1 /\ C.pert[1] <= Len(recActs) /\ Uncut
 ShouldDiverge == Perturbed /\ CaseVerdict(C)
 
@@ -177,9 +182,15 @@ LongerReplayContinues ==
      /\ (term = "timeLimit" => Len(acts) = C.T2 /\ Len(fresh) = C.T2 - C.T)
 \* a cut recording is a shorter recording
 CutReplay ==
-  (Finished /\ ~Uncut) =>
+  (Finished /\ C.cut >= 0 /\ C.sub[1] = 0) =>
      /\ \A i \in 1..Len(acts) : i <= NDraws(stream) => acts[i] = recActs[i]
      /\ term # "DivergenceError"
+\* a recording in which a recorded value was replaced by another value of the same domain is a
+\* recording of another run: the replay follows it, value by value (no other failure)
+SubstitutedReplay ==
+  (Finished /\ C.sub[1] > 0 /\ C.chk = 0) =>
+     /\ term \in {"timeLimit", "behavior"}
+     /\ \A i \in 1..Len(acts) : i <= NDraws(stream) => acts[i] = stream[i][2]
 \* Diverged <=> |actual - expected| > tolerance, in BOTH directions; reported at the update
 \* where it happens, by DivergenceError or (continueAfterDivergence) by abandoning the recording
 DivergenceDetectedBothSigns ==
@@ -209,7 +220,7 @@ Discriminating ==
         /\ CaseVerdict(k) /\ ~DivergedRelative(k.pert[2], k.pert[3], k.tol4, k.base)
 \* recording and replay stay in step: when nothing diverges every recorded field is consumed
 StreamConsumed ==
-  (Finished /\ sem = "ideal" /\ ~ShouldDiverge /\ C.T2 >= C.T /\ term # "DivergenceError") =>
+  (Finished /\ sem = "ideal" /\ ~ShouldDiverge /\ C.T2 >= C.T /\ term # "DivergenceError" /\ C.sub[1] = 0) =>
      rp = Len(stream) + 1
 
 \* the reader always finds the kind of field it expects (recording and replay in lockstep)
